@@ -173,7 +173,7 @@ class Runner:
             self.loop.close()
 
 
-def episode(run, history, extra_dtm, extra_frame, check, at=None):
+def episode(run, history, extra_dtm, extra_frame, check, at=None, probe=None):
     """feed history, then the extra frame (at=None) - or the history with the frame at index ``at`` replaced by the
     extra frame (a field mutation inside the history) - then read all views.  check(cond, label, info)"""
     outcome = None
@@ -200,21 +200,35 @@ def episode(run, history, extra_dtm, extra_frame, check, at=None):
             return f"{name} raises {type(e).__name__}", name
     check(True, "C13:every-view-answers", None)
     check(gwy._engine_state is None and gwy._protocol._msg_handler is not None, "C13:engine-running-after-the-views", None)
-    # the engine still tracks: a further good packet (the first frame of the history, later) reaches its device
-    dtm0, frame0 = history[0]
-    try:
-        res, msg = run.feed(_dtm_plus(extra_dtm, 5), frame0)
-    except Exception as e:  # noqa: BLE001
-        check(False, "C13:a-later-good-packet-is-still-handled", f"{type(e).__name__}: {str(e)[:80]}")
-        return "later packet raises", None
-    if res == "handled":
+    # the engine still tracks: a further good packet, handed over the way the protocol does it, reaches its device
+    # (``probe`` is a frame of the history from another device which - in a control run without the extra packet -
+    # is stored by its device when it arrives again later)
+    if probe is not None:
+        from asyncio import events
+
+        from ramses_tx.message import Message
+        from ramses_tx.packet import Packet
+
+        pkt = Packet.from_file(_dtm_plus(extra_dtm, 5), probe)
+        msg = Message(pkt)
+        run.tx.now = pkt.dtm
+        handler = gwy._protocol._msg_handler
+        events._set_running_loop(run.loop)
+        try:
+            handler(msg)
+        except Exception as e:  # noqa: BLE001
+            check(False, "C13:a-later-good-packet-is-still-handled", f"{type(e).__name__}: {str(e)[:80]}")
+            return "later packet raises", None
+        finally:
+            events._set_running_loop(None)
+        run.spin()
         dev = gwy.device_by_id.get(msg.src.id)
         ok = dev is not None and any(m is msg for m in dev._msg_db)
-        check(ok, "C13:a-later-good-packet-is-still-handled", f"{frame0[4:6]}|{frame0[41:45]} not stored on {msg.src.id}")
+        check(ok, "C13:a-later-good-packet-is-still-handled", f"{probe[4:6]}|{probe[41:45]} from {msg.src.id} not stored")
     return outcome, None
 
 
-def h_views(ctx, bname, lines, idx, off, w, eavesdrop, mutate=False):
+def h_views(ctx, bname, lines, idx, off, w, eavesdrop, mutate=False, probe=None):
     import symx
 
     dtm, frame = lines[idx]
@@ -222,7 +236,7 @@ def h_views(ctx, bname, lines, idx, off, w, eavesdrop, mutate=False):
     win = symx.sym_hex(ctx, "w", w)
     extra = head + pay[:off] + win + pay[off + w:]
     run = Runner(True, eavesdrop)
-    out, _ = episode(run, lines, _dtm_plus(lines[-1][0], T_AFTER), extra, ctx.check, at=idx if mutate else None)
+    out, _ = episode(run, lines, _dtm_plus(lines[-1][0], T_AFTER), extra, ctx.check, at=idx if mutate else None, probe=probe)
     return out
 
 
@@ -237,11 +251,54 @@ def candidates(lines, id_windows):
         seen.add(key)
         for off in range(0, len(pay), 4):
             w = min(4, len(pay) - off)
-            if not id_windows and code in ("000C", "1FC9", "0418", "3EF0", "10E0", "0004", "0100", "0404") and off >= 4:
+            if not id_windows and code in ("0005", "000C", "1FC9", "0418", "3EF0", "10E0", "0004", "0100", "0404") and off >= 4:
                 # windows over embedded device ids / text: thorough tier only (every id byte forks over the device classes)
                 continue
             out.append((i, off, w))
     return out
+
+
+_PROBES: dict = {}
+
+
+def probes(bname, lines, eav):
+    """frames of the history (one per source device, at most 4) that are stored by their device when they arrive
+    again after the history - established by a control run without any extra packet"""
+    key = (bname, len(lines), eav)
+    if key in _PROBES:
+        return _PROBES[key]
+    out, seen = [], set()
+    for dtm, frame in lines:
+        src = frame[11:20]
+        if src in seen or frame[4:6] != " I" or len(out) >= 4:
+            continue
+        run = Runner(not _PLAIN[0], eav)
+        try:
+            for d, f in lines:
+                run.feed(d, f)
+            res, msg = run.feed(_dtm_plus(lines[-1][0], T_AFTER + 5), frame)
+            dev = run.gwy.device_by_id.get(msg.src.id) if res == "handled" else None
+            if dev is not None and any(m is msg for m in dev._msg_db):
+                out.append(frame)
+                seen.add(src)
+        except Exception:  # noqa: BLE001
+            pass
+        finally:
+            run.close()
+    _PROBES[key] = out
+    return out
+
+
+_PLAIN = [False]  # True while replaying (plain package, real asyncio loop)
+
+
+def pick_probe(bname, lines, eav, extra_frame, mutate):
+    if mutate:
+        return None  # a mutated history may legitimately change what later packets do: no control to compare with
+    for f in probes(bname, lines, eav):
+        if f[11:20] != extra_frame[11:20] and f[11:20] not in (extra_frame[21:30], extra_frame[31:40]):
+            return f
+    return None
 
 
 def queries(tier):
@@ -254,9 +311,10 @@ def queries(tier):
             for mut in (False, True):
                 for i, off, w in candidates(lines, thorough):
                     f = lines[i][1]
-                    name = f"gwviews[{bname}{'+eav' if eav else ''}|{'mutated' if mut else 'extra'}|{f[4:6].strip()}|{f[41:45]}|{f[11:13]}>{f[21:23]}|{len(f[50:]) // 2}@{off}]"
-                    qs.append(Query(name, lambda c, a=(bname, lines, i, off, w, eav, mut): h_views(c, *a), {"h": "gwviews", "base": bname, "n": len(lines), "idx": i, "off": off, "w": w, "eav": eav, "mut": mut},
-                                    group="gwviews", max_secs=240 if thorough else 90, max_paths=4000, weight=0.5))
+                    probe = pick_probe(bname, lines, eav, f, mut)
+                    name = f"gwviews[{bname}{'+eav' if eav else ''}|{'mutated' if mut else 'extra'}|{f[4:6].strip()}|{f[41:45]}|{f[11:13]}>{f[21:23]}|{len(f[50:]) // 2}@{off}#{i}]"
+                    qs.append(Query(name, lambda c, a=(bname, lines, i, off, w, eav, mut, probe): h_views(c, *a), {"h": "gwviews", "base": bname, "n": len(lines), "idx": i, "off": off, "w": w, "eav": eav, "mut": mut, "probe": probe},
+                                    group="gwviews", max_secs=240 if thorough else 90, max_paths=4000, weight=0.5, mode=("bv" if f[41:45] == "3220" else "int")))
     return qs
 
 
@@ -279,7 +337,7 @@ def replay(item):
 
     run = Runner(False, prm.get("eav", False))
     try:
-        out, view = episode(run, tier_lines, _dtm_plus(tier_lines[-1][0], T_AFTER), extra, check, at=prm["idx"] if prm.get("mut") else None)
+        out, view = episode(run, tier_lines, _dtm_plus(tier_lines[-1][0], T_AFTER), extra, check, at=prm["idx"] if prm.get("mut") else None, probe=prm.get("probe"))
     finally:
         run.close()
     labs = [l for l, _ in failed]
